@@ -33,19 +33,45 @@ class C02(Prop):
                 g.step()
             for be in storelib.BACKENDS:
                 out.append(("random-history", {"backend": be, "ops": g.ops}))
+        # histories of single-event writes with NOTHING read in between (a read would flush the lazily committing store):
+        # only the final contents are observed - e.g. a delete of an id that never existed must not lose the writes before it
+        for i in range(ctx.pick(120, 2000)):
+            g = storegen.HistGen(rng, nbuckets=2, grid=rng.choice([3, 8]))
+            g.start()
+            for _ in range(rng.randint(3, 30)):
+                b = rng.choice(g.buckets)
+                r = rng.random()
+                if r < 0.45:
+                    g.op_insert(b)
+                elif r < 0.6:
+                    g.op_replace(b)
+                elif r < 0.75:
+                    g.op_replacelast(b)
+                else:
+                    g.op_delete(b)
+            for be in storelib.BACKENDS:
+                out.append(("quiet-history", {"backend": be, "ops": g.ops, "quiet": True}))
+        # bulk inserts larger than any internal batch size (100, 500, ...), with sizes just around the multiples
+        for n in (99, 100, 101, 150, 199, 200, 201, 250, 501) if ctx.quick else (99, 100, 101, 102, 150, 199, 200, 201, 250, 499, 500, 501, 999, 1001):
+            evs = [[None, storegen.T0 + k * 1000, 1000, storegen.LABELS[k % 2]] for k in range(n)]
+            ops = [["create", "b0", storegen.mk_meta(rng, "b0")], ["insert", "b0", storegen.rand_ev(rng)],
+                   ["bulk", "b0", [[["ref", 0]] + storegen.rand_ev(rng)[1:]] + evs], ["count", "b0", None, None],
+                   ["delete", "b0", ["ref", n]], ["replacelast", "b0", storegen.rand_ev(rng)]]
+            for be in storelib.BACKENDS:
+                out.append(("big-bulk", {"backend": be, "ops": ops}))
         return out
 
     def impl(self, case):
-        r = storelib.Runner(case["backend"]).run(case["ops"])
+        r = storelib.Runner(case["backend"], with_dumps="last" if case.get("quiet") else True).run(case["ops"])
         r["outs"] = [storelib.norm_err(case["backend"], o) for o in r["outs"]]
         return r
 
     def model_lines(self, case, impl_out):
-        lines, _ = storelib.model_lines(case["backend"], impl_out["resolved"])
+        lines, _ = storelib.model_lines(case["backend"], impl_out["resolved"], "last" if case.get("quiet") else True)
         return lines
 
     def model_out(self, case, answers, impl_out):
-        _, idx = storelib.model_lines(case["backend"], impl_out["resolved"])
+        _, idx = storelib.model_lines(case["backend"], impl_out["resolved"], "last" if case.get("quiet") else True)
         return storelib.model_out(case["backend"], impl_out["resolved"], answers, idx)
 
     def same(self, case, io, mo):
